@@ -143,6 +143,15 @@ func EnvOver(k *Spec, dek string) *Spec {
 // behind), swap (hmac_key before aes_ctr_key), longvar (the first length as a two-byte varint), split (the
 // aes_ctr_key message in two occurrences, which protobuf merges).
 func NonCanonical(ser []byte, how string) []byte {
+	switch how {
+	case "grouptag":
+		// a skipped group (field 15) holding a field whose number 2^29 is above the message-level maximum
+		// but legal inside a group (protowire.ConsumeTag: up to 2^31-1): unmarshals like the plain key
+		return append([]byte{0x7b, 0x80, 0x80, 0x80, 0x80, 0x10, 0x00, 0x7c}, ser...)
+	case "ver1":
+		// NOT an encoding of the key: version 1 - registry.Primitive refuses it (kind baddek.ver1)
+		return append([]byte{0x08, 0x01}, ser...)
+	}
 	if ser[0] != 0x12 || len(ser) == 2+int(ser[1]) {
 		// a single-field key proto: tag len key (ChaCha20-Poly1305 has tag 0x12 too: it is one field long)
 		switch how {
@@ -178,7 +187,7 @@ func NonCanonical(ser []byte, how string) []byte {
 	panic("noncanonical " + how)
 }
 
-var NonCanonicalHows = []string{"ver0", "unk", "swap", "longvar", "split"}
+var NonCanonicalHows = []string{"ver0", "unk", "swap", "longvar", "split", "grouptag"}
 
 // DEKOf resolves a data-key template name.
 func DEKOf(name string) (DEKInfo, bool) {
